@@ -87,6 +87,9 @@ class InputStream:
             raise TypeError("Too many arguments passed to 'wsgi.input.readline()'.")
         return self._stream.readline(*args)
 
+    def readlines(self, *args: t.Any) -> list[bytes]:
+        return self._stream.readlines(*args)
+
     def __iter__(self) -> t.Iterator[bytes]:
         try:
             return iter(self._stream)
